@@ -15,10 +15,10 @@ def same(a, b, approx=True):
             return False
         if a == b:
             return True
-        if not approx:
-            return False
         if math.isnan(a) or math.isnan(b):
             return math.isnan(a) and math.isnan(b)
+        if not approx:
+            return False
         return abs(a - b) <= ABS + REL * max(abs(a), abs(b))
     if isinstance(a, array):
         a = list(a)
